@@ -575,12 +575,22 @@ Lemma run_cli_events : forall fl cfg ms i r r1 l, run_cli fl cfg ms i r = (r1, l
 Proof.
   induction ms as [|m rest IH]; intros i r r1 l H; cbn in H.
   - inversion H; subst. auto.
-  - destruct (apply_mw fl cfg m r) as [[r2 e] l1] eqn:A.
-    destruct (run_cli fl cfg rest (S i) _) as [r3 l3] eqn:R. inversion H; subst.
-    destruct (IH _ _ _ _ R) as (I1 & I2 & I3). pose proof (apply_mw_log _ _ _ _ _ _ _ A) as HS.
-    rewrite !filter_app'. cbn [user_evs].
-    rewrite (mw_event_filter is_cli EvCli), (mw_event_filter_out is_ud EvCli), (mw_event_filter_out is_req EvCli) by reflexivity.
-    rewrite !(small_log_filter _ l1 HS) by reflexivity. rewrite I1, I2, I3. auto.
+  - destruct m as [s t|d].
+    + cbn in H. destruct (run_cli fl cfg rest (S i) _) as [r3 l3] eqn:R. inversion H; subst.
+      destruct (IH _ _ _ _ R) as (I1 & I2 & I3). cbn. rewrite I1, I2, I3. auto.
+    + destruct (IH _ _ _ _ H) as (I1 & I2 & I3). cbn. auto.
+Qed.
+
+Lemma run_cli_digests_log : forall fl cfg ms b r r1 b1 l, run_cli_digests fl cfg ms b r = (r1, b1, l) ->
+  filter is_cli l = [] /\ filter is_ud l = [] /\ filter is_req l = [].
+Proof.
+  induction ms as [|m rest IH]; intros b r r1 b1 l H; cbn in H.
+  - inversion H; subst. auto.
+  - destruct m as [s t|d]; [eapply IH; eauto|].
+    destruct (run_cli_digests fl cfg rest b r) as [[r2 b2] l2] eqn:R.
+    destruct (digest_mw fl cfg d r2) as [[r3 e3] l3] eqn:D. inversion H; subst.
+    destruct (IH _ _ _ _ _ R) as (I1 & I2 & I3). pose proof (digest_log _ _ _ _ _ _ _ D) as HS.
+    rewrite !filter_app', I1, I2, I3, !(small_log_filter _ l3 HS) by reflexivity. auto.
 Qed.
 
 Lemma round_trip_events : forall fl cfg a ro e l, round_trip fl cfg a = (ro, e, l) ->
@@ -592,11 +602,13 @@ Proof.
   destruct (a_getbody a) as [x|].
   { inversion H; subst. split; [reflexivity|]. split; [reflexivity|]. split; [intro K; discriminate|auto]. }
   destruct (receive (a_transport a) fresh_resp) as [[r1 e1] b].
+  destruct (run_cli_digests fl cfg (a_cli a) b _) as [[r3d bd] l_d] eqn:Dg.
+  destruct (run_cli_digests_log _ _ _ _ _ _ _ _ Dg) as (D1 & D2 & D3).
   destruct (parse_response_body _ _ _) as [r4 e4].
   destruct (run_cli fl cfg (a_cli a) 0 _) as [r6 l6] eqn:R. inversion H; subst.
-  destruct (run_cli_events _ _ _ _ _ _ _ R) as (I1 & I2 & I3). cbn.
-  split; [exact I2|]. split; [exact I3|]. split.
-  - intros _. split; [exact I1|eexists; reflexivity].
+  destruct (run_cli_events _ _ _ _ _ _ _ R) as (I1 & I2 & I3). cbn. rewrite !filter_app', D1, D2, D3, I1, I2, I3. cbn.
+  split; [reflexivity|]. split; [reflexivity|]. split.
+  - intros _. split; [reflexivity|eexists; reflexivity].
   - intro K; contradiction.
 Qed.
 
@@ -835,6 +847,13 @@ Qed.
 
 Definition is_user (m : mw) : Prop := match m with Mw _ _ => True | MwDigest _ => False end.
 
+Lemma run_cli_digests_user : forall fl cfg ms b r, Forall is_user ms -> run_cli_digests fl cfg ms b r = (r, b, []).
+Proof.
+  induction ms as [|m rest IH]; intros b r F; cbn; [reflexivity|].
+  inversion F as [|m' rest' Fm Frest]; subst. destruct m; [apply IH; exact Frest|contradiction].
+Qed.
+
+
 (* the error a user middleware raises: the one it returns, else the one it assigned *)
 Definition mw_raises (m : mw) : option err :=
   match m with
@@ -875,11 +894,11 @@ Qed.
 Lemma run_cli_sticky : forall fl cfg ms i r, r_err r <> None -> r_err (fst (run_cli fl cfg ms i r)) <> None.
 Proof.
   induction ms as [|m rest IH]; intros i r N; cbn; [exact N|].
-  destruct (apply_mw fl cfg m r) as [[r1 e] l1] eqn:A.
-  pose proof (apply_mw_sticky _ _ _ _ _ _ _ A N) as N1.
-  destruct (run_cli fl cfg rest (S i) _) as [r3 l3] eqn:R. cbn.
-  assert (r3 = fst (run_cli fl cfg rest (S i) (match e with Some x => set_err (Some x) r1 | None => r1 end))) as E by (rewrite R; reflexivity).
-  rewrite E. apply IH. destruct e; cbn; [discriminate|exact N1].
+  destruct m as [s t|d]; [|apply IH; exact N].
+  cbn. destruct (run_cli fl cfg rest (S i) _) as [r3 l3] eqn:R. cbn.
+  match type of R with run_cli _ _ _ _ ?rr = _ =>
+    assert (r3 = fst (run_cli fl cfg rest (S i) rr)) as E by (rewrite R; reflexivity); rewrite E; apply IH end.
+  destruct t; cbn; [discriminate|]. destruct s; cbn; [discriminate|exact N].
 Qed.
 
 Lemma run_req_sticky : forall fl cfg ms i r, r_err r <> None ->
@@ -901,6 +920,7 @@ Proof.
   intros fl cfg a ro e l H. unfold round_trip in H. destruct (a_getbody a).
   - inversion H; subst. eexists; split; reflexivity.
   - destruct (receive (a_transport a) fresh_resp) as [[r1 e1] b].
+    destruct (run_cli_digests fl cfg (a_cli a) b _) as [[r3d bd] l_d].
     destruct (parse_response_body _ _ _) as [r4 e4].
     destruct (run_cli fl cfg (a_cli a) 0 _) as [r6 l6]. inversion H; subst. eexists; split; reflexivity.
 Qed.
@@ -910,7 +930,8 @@ Lemma transport_error_is_seen : forall fl cfg a x, a_getbody a = None -> a_trans
   Forall is_user (a_cli a) ->
   exists r l, round_trip fl cfg a = (Some r, r_err r, l) /\ r_err r = last_wins (Some x) (a_cli a) /\ r_present r = false.
 Proof.
-  intros fl cfg a x G T F. unfold round_trip. rewrite G, T. cbn.
+  intros fl cfg a x G T F. unfold round_trip. rewrite G, T. cbn [receive].
+  rewrite (run_cli_digests_user fl cfg (a_cli a) _ _ F). cbn.
   destruct (run_cli fl cfg (a_cli a) 0 _) as [r6 l6] eqn:R.
   match type of R with run_cli _ _ _ _ ?rr = _ => pose proof (run_cli_user fl cfg (a_cli a) 0 rr F) as K end. rewrite R in K. cbn in K. destruct K as (K1 & K2 & _).
   exists r6, (EvSend :: l6). split; [reflexivity|]. split; [exact K1|exact K2].
@@ -932,6 +953,7 @@ Proof.
   set (r2 := mkResp true s chk None false false ENone) in *.
   change (set_err None (set_http true s chk fresh_resp)) with r2.
   set (r3 := auto_read (c_autoread cfg) autoread_status_ok b r2).
+  rewrite (run_cli_digests_user fl cfg (a_cli a) _ _ F).
   assert (r_err r3 = None /\ r_present r3 = true /\ r_status r3 = s /\ r_chk r3 = chk /\ r_result r3 = false /\ r_error r3 = ENone) as (E3 & P3 & S3 & C3 & R3 & Er3).
   { unfold r3, auto_read. destruct (negb (is_some (r_err r2)) && c_autoread cfg && autoread_status_ok (r_status r2)).
     - unfold to_bytes. cbn. rewrite Rd, Tf. cbn. repeat split; reflexivity.
@@ -1089,7 +1111,7 @@ Lemma round_trip_binding : forall fl cfg a r e l s chk b,
 Proof.
   intros fl cfg a r e l s chk b H F G T. unfold round_trip in H. rewrite G, T in H. cbn [receive] in H.
   change (set_err None (set_http true s chk fresh_resp)) with (mkResp true s chk None false false ENone) in H.
-  intro r3. fold r3 in H.
+  intro r3. fold r3 in H. rewrite (run_cli_digests_user fl cfg (a_cli a) _ _ F) in H.
   assert (r_result r3 = false /\ r_error r3 = ENone /\ r_present r3 = true /\ r_status r3 = s /\ r_chk r3 = chk) as (R3 & E3 & P3 & S3 & C3).
   { unfold r3, auto_read. destruct (_ && _ && _); [|cbn; auto].
     destruct (to_bytes b (mkResp true s chk None false false ENone)) as [rr ee] eqn:TB.
@@ -1112,7 +1134,8 @@ Proof.
   intros fl cfg a r e l H F K. unfold round_trip in H.
   destruct (a_getbody a) as [x|] eqn:G.
   { inversion H; subst. cbn. repeat split; auto. discriminate. }
-  destruct K as [K|[x T]]; [contradiction|]. rewrite T in H. cbn in H.
+  destruct K as [K|[x T]]; [contradiction|]. rewrite T in H. cbn [receive] in H.
+  rewrite (run_cli_digests_user fl cfg (a_cli a) _ _ F) in H. cbn in H.
   destruct (run_cli fl cfg (a_cli a) 0 _) as [r6 l6] eqn:R.
   match type of R with run_cli _ _ _ _ ?rr = _ => pose proof (run_cli_user fl cfg (a_cli a) 0 rr F) as K;
                                                     pose proof (run_cli_sticky fl cfg (a_cli a) 0 rr) as St end.
